@@ -20,6 +20,8 @@ ASSUMPTIONS = ["gzip / base64 / json layers are library code", "round trip over 
 TRUSTED = []
 
 MUTANTS = [
+    {"name": "single-slot-range-without-dash", "file": "src/common/cluster.rs", "old": "            strs.push(format!(\"{}-{}\", *start, *end));", "new": "            if start == end {\n                strs.push(format!(\"{}\", *start));\n            } else {\n                strs.push(format!(\"{}-{}\", *start, *end));\n            }", "expect": "C17.D2:range-encoding"},
+    {"name": "flags-one-token-only", "file": "src/common/proto.rs", "old": "        if self.compress {\n            flags.push(\"COMPRESS\");\n        }", "new": "        if self.compress && !self.force {\n            flags.push(\"COMPRESS\");\n        }", "expect": "C17.D2:flag-token-independent"},
     {"name": "setcluster-header-epoch-after-flags", "file": "src/common/proto.rs", "after": "    pub fn to_args(&self) -> Vec<String> {\n        let mut args = vec![\n            self.version.clone(),", "old": "            self.epoch.to_string(),\n            self.flags.to_arg(),\n            self.cluster_name.to_string(),", "new": "            self.flags.to_arg(),\n            self.epoch.to_string(),\n            self.cluster_name.to_string(),", "expect": "C17.D1:ProxyClusterMeta:to_args:header-order"},
     {"name": "repl-peers-read-with-take", "file": "src/replication/replicator.rs", "old": "        for _ in 0..peer_num {\n            let node_address = it.next().ok_or(CmdParseError::InvalidArgs)?;\n            let proxy_address = it.next().ok_or(CmdParseError::InvalidArgs)?;\n            peers.push(ReplPeer {\n                node_address,\n                proxy_address,\n            })\n        }", "new": "        let toks: Vec<String> = it.by_ref().take(peer_num * 2).collect();\n        for pair in toks.chunks(2) {\n            if let [node_address, proxy_address] = pair {\n                peers.push(ReplPeer {\n                    node_address: node_address.clone(),\n                    proxy_address: proxy_address.clone(),\n                })\n            }\n        }", "expect": "C17.D5:decoder-reads-every-token"},
     {"name": "masters-without-replicas-not-encoded", "file": "src/replication/replicator.rs", "old": "    for master in masters.iter() {\n        args.push(\"master\".to_string());", "new": "    for master in masters.iter() {\n        if master.replicas.is_empty() {\n            continue;\n        }\n        args.push(\"master\".to_string());", "expect": "C17.D5:encoder-emits-every-element"},
@@ -82,6 +84,8 @@ def run(ctx):
     ctx.rule("C17.D5", "decoders read count-prefixed and token lists element by element (next / peek) and fail on exhaustion: no truncating adaptor (take, zip, tuples, chunks, step_by, take_while ...) over the token stream; encoders emit every element of every list (no way round an encoder loop that skips the pushes)")
     _decoder_adaptors(ctx)
     _encoder_loops(ctx)
+    _range_encoding(ctx)
+    _flags_codec(ctx)
 
 
 def _migration_meta(ctx):
@@ -494,3 +498,83 @@ def _cluster_meta_header(ctx):
         want = [x for x in wseq if x in HEAD]
         ok = any([x for x in rs if x in want] == want and len(want) >= 3 for rs in rseqs)
         ctx.check(ok, "C17.D1", "ProxyClusterMeta:%s:header-order" % wname, site(w), ok="header written as %s, read in the same order" % wseq, bad="%s writes the header as %s but parse() reads %s" % (wname, wseq, rseqs))
+
+
+def _range_encoding(ctx):
+    """every range is written as `start-end` - the reader (parse_slot_range) splits on `-` and needs both numbers, for a
+    single-slot range too.  The writer must not choose its form by comparing start with end"""
+    from ..callgraph import CallGraph
+    from ..lib import binop_sites, const_str_set
+    F = ctx.F
+    w = F.one("common::cluster::RangeList::to_strings")
+    if w is None:
+        ctx.lost("C17.D2", "range-encoding", "RangeList::to_strings not found")
+        return
+    cg = CallGraph(F, bins=False)
+    reach = [cg.bodies[p] for p in cg.reachable([w.path]) if p.startswith(("common::cluster", "<common::cluster"))]
+    ctx.analysed(*reach)
+    bad = None
+    dash = False
+    for b in reach:
+        du = DefUse(b)
+        cs = const_str_set(b)
+        if any(b"-" in c for c in cs):
+            dash = True
+        for bb, i, st in binop_sites(b, ("Eq", "Ne", "Lt", "Le", "Gt", "Ge")):
+            sa = du.slice_operand(st["rv"]["a"]); sb = du.slice_operand(st["rv"]["b"])
+            fa = {(a or "").rsplit("::", 1)[-1] + "." + n for a, n in sa.fields} | {c.rsplit("::", 1)[-1] for c in sa.calls}
+            fb = {(a or "").rsplit("::", 1)[-1] + "." + n for a, n in sb.fields} | {c.rsplit("::", 1)[-1] for c in sb.calls}
+            if (("Range.0" in fa or "start" in fa) and ("Range.1" in fb or "end" in fb)) or (("Range.1" in fa or "end" in fa) and ("Range.0" in fb or "start" in fb)):
+                bad = (b, bb)
+    ctx.check(dash and bad is None, "C17.D2", "range-encoding:always-start-dash-end", site(bad[0], bad[1]) if bad else site(w), ok="ranges are written as `{}-{}` without looking at start == end",
+              bad="the range writer %s: a single-slot range is written in another form than `start-end`, which parse_slot_range rejects (plain SETCLUSTER / INFOMGR descriptors of one-slot migrations stop decoding)" % ("chooses its form by comparing start and end" if bad else "never writes a `-`"))
+
+
+def _flags_codec(ctx):
+    """ClusterMapFlags: each flag has its own token and the tokens are independent - the token of one flag is written
+    whenever that flag is set, whatever the other flags are (from_arg tests each token separately)"""
+    from ..lib import branch_conditions, const_str_set
+    F = ctx.F
+    w = F.one("common::proto::ClusterMapFlags::to_arg")
+    r = F.one("common::proto::ClusterMapFlags::from_arg")
+    adt = F.adt("common::proto::ClusterMapFlags")
+    if w is None or r is None or adt is None:
+        ctx.lost("C17.D2", "flags-codec", "ClusterMapFlags codec not found")
+        return
+    ctx.analysed(w, r)
+    du = DefUse(w)
+    dom = cfg.dominators(w)
+    flags = [f["name"] for f in adt.variants[0]["fields"]]
+    rtok = {c.decode().upper() for c in const_str_set(r) if c.isalpha()}
+    # blocks that use a token constant
+    uses = {}
+    from ..facts import const_bytes as _cb
+    for blk in w.blocks:
+        for st in blk.stmts:
+            if st["k"] != "assign":
+                continue
+            for o in ([st["rv"].get("a"), st["rv"].get("b")] + list(st["rv"].get("ops", []) or [])):
+                if isinstance(o, dict) and "c" in o:
+                    v = _cb(o["c"])
+                    if v and v.decode(errors="ignore").upper() in rtok:
+                        uses.setdefault(v.decode().upper(), set()).add(blk.id)
+        t = blk.term
+        if t["k"] == "call":
+            for a in t["args"]:
+                if "c" in a:
+                    v = _cb(a["c"])
+                    if v and v.decode(errors="ignore").upper() in rtok:
+                        uses.setdefault(v.decode().upper(), set()).add(blk.id)
+    if not ctx.floor("C17.D2", "flag tokens used by to_arg that from_arg knows", len(uses), len(flags)):
+        return
+    for tok, bbs in sorted(uses.items()):
+        own = tok.lower()
+        for bb in sorted(bbs):
+            conds = []
+            for d, discr, val in branch_conditions(w, bb, dom):
+                names = {n for a, n in du.slice_operand(discr, deep=False).fields if (a or "").endswith("ClusterMapFlags")}
+                conds.append((names, val))
+            foreign = [c for c in conds if c[0] and own not in c[0]]
+            mine = [c for c in conds if own in c[0]]
+            ctx.check(bool(mine) and not foreign, "C17.D2", "flag-token-independent:%s" % tok, site(w, bb), ok="%s is written iff the %s flag is set" % (tok, own),
+                      bad="the token %s is written under a condition on another flag (%s): a combination of flags is encoded as a single token and decodes to different flags (e.g. FORCE+COMPRESS -> FORCE, the compressed blob is then read as a cluster name)" % (tok, sorted(set().union(*[c[0] for c in foreign])) if foreign else "none of its own"))
